@@ -9,7 +9,7 @@ import (
 
 // C19: keep-alive in virtual time.
 func C19(c *core.Ctx) {
-	c.Rep.Bound = "HIST over timed histories in virtual time: keep-alive K in {1,2,10} s; actions advance(0.4K / 0.9K / 1.3K / 1.6K), PINGREQ, PUBLISH, first byte of a packet then its second byte; will configured, witness subscribed to '#'; every sequence (no de-duplication) to depth 5 (quick) / 6 (thorough); a second alphabet with PUBLISH packets of exactly 8192 and 8191 bytes (the receiver's read block) and a packet that is never completed (fixed header and part of the body)"
+	c.Rep.Bound = "HIST over timed histories in virtual time: keep-alive K in {1,2,10} s; actions advance(0.4K / 0.9K / 1.3K / 1.6K), PINGREQ, PUBLISH, first byte of a packet then its second byte; will configured, witness subscribed to '#'; every sequence (no de-duplication) to depth 5 (quick) / 6 (thorough); a second alphabet with PUBLISH packets of exactly 8192 and 8191 bytes (the receiver's read block) and a packet that is never completed (fixed header and part of the body); a third alphabet with advances of 0.05K / 0.25K / 0.97K"
 	c.Rep.Rule = "the connection must be open and every PINGREQ answered while all gaps between client transmissions are < K; it must be closed and its will published once a gap exceeds 1.5 K; in between either; no wall-clock time is involved: the clock moves only by the advance actions; non-trivial = histories in which the connection is dropped"
 	ks := []int{1, 2, 10}
 	for _, k := range ks {
@@ -83,6 +83,19 @@ func C19(c *core.Ctx) {
 			{Kind: "send", Client: "X", Raw: append([]byte{0x30, 0x64, 0x00, 0x01, 't'}, []byte("0123456")...), RawDesc: "PUBLISH header announcing 100 bytes, 10 of them"},
 		}
 		blk.Search(c)
+		if c.HasViolation() || c.Expired() {
+			return
+		}
+		// finer timing: a packet shortly after the previous one, then a gap just below K
+		// (what counts is the time since the client's last packet, not since anything
+		// the broker did with its timers)
+		fine := *spec
+		fine.Name = fmt.Sprintf("keepalive-fine-timing-%ds", k)
+		fine.Ops = []Action{
+			{Kind: "advance", D: K * 5 / 100}, {Kind: "advance", D: K * 25 / 100}, {Kind: "advance", D: K * 97 / 100}, {Kind: "advance", D: K * 16 / 10},
+			{Kind: "ping", Client: "X"}, pub("X", "t", 0, 0, "tick"),
+		}
+		fine.Search(c)
 		if c.HasViolation() || c.Expired() {
 			return
 		}
